@@ -25,7 +25,9 @@ prop("C02", "proof",
      "of the two fields of the 80-byte encoding -- in particular all 640 single-bit flips -- is Err at decoding or verification (with codec canonicity, C09). Reduction theorem "
      "verify_binding: one signature accepted for two different (messages, header) of the same length (byte change, swap, replacement; header change, None = empty) constructs a "
      "collision of the message hash on two explicit different messages, a collision of the domain hash on explicit different octets, or a non-trivial discrete-log relation among "
-     "Q1, H_1..H_L (no injectivity hypothesis on any hash). PARTIAL: insert / delete / truncate / extend (length changes), other public key and cross-suite / cross-interface "
+     "Q1, H_1..H_L (no injectivity hypothesis on any hash); verify_binding_lengths: the same for two message lists of DIFFERENT lengths (insert / delete / truncate / extend): "
+     "the shorter statement's generators are a prefix of the longer one's (create_prefix), so acceptance of both constructs a non-trivial relation among Q1, H_1..H_L' or a "
+     "collision of the domain hash on two explicit inputs that carry different counts. PARTIAL: other public key and cross-suite / cross-interface "
      "clauses are decided by correspondence + sweep on every mutation class the property lists.", "DESIGN.md §10 C02")
 prop("C03", "proof",
      "Coq theorem proof_complete: for every environment with Laws, every valid signature, every message list (any L), every index list (unsorted, duplicates allowed, "
